@@ -930,7 +930,8 @@ namespace avel {
 
     [[nodiscard]]
     AVEL_FINL vec4x64f fdim(vec4x64f x, vec4x64f y) {
-        return avel::max(x - y, vec4x64f{0.0});
+        //x - y is NaN for equal infinities; <cmath>'s fdim returns +0 there
+        return blend(x <= y, vec4x64f{0.0}, x - y);
     }
 
     [[nodiscard]]
